@@ -130,6 +130,13 @@ fn main() {
         });
         return;
     }
+    if args[1] == "C19-env-transcripts" {
+        // the one place where the subject runs with backtraces on (nothing has captured one yet)
+        std::env::set_var("RUST_BACKTRACE", "1");
+        std::env::set_var("RUST_LIB_BACKTRACE", "1");
+        det::print_env_transcripts();
+        return;
+    }
     if args[1] == "C19-digest" {
         if let Ok(n) = std::env::var("VERIF_THREADS") {
             if let Ok(n) = n.parse::<usize>() {
